@@ -44,8 +44,8 @@ Fixpoint gv_plain (g : gv) : bool :=
 
 Definition good (w : wire) : Prop := wf w = true /\ canonical w = true.
 
-Definition encodes (g : gv) : Prop :=
-  forall b, gv_plain g = true -> enc g = Acc b -> exists w, b = ser w /\ good w.
+Definition encodes (kb : bool) (g : gv) : Prop :=
+  forall b, gv_plain g = true -> enc kb g = Acc b -> exists w, b = ser w /\ good w.
 
 Lemma enc_head_ser_int n : 0 <= n < two64 -> enc_head 0 n = ser (WInt false (minw n) n) /\ good (WInt false (minw n) n).
 Proof. intros H. split; [reflexivity|]. split; cbn; [apply minw_fits; auto|apply width_eqb_refl]. Qed.
@@ -60,15 +60,15 @@ Proof.
 Qed.
 
 (* sequences of encoded items *)
-Lemma seq_encodes (f : list gv -> res bytes) :
-  (forall l, f l = match l with [] => Acc [] | y :: r => let* a := enc y in let* b := f r in Acc (a ++ b) end) ->
-  forall l bs, Forall encodes l -> Forall (fun y => gv_plain y = true) l -> f l = Acc bs ->
+Lemma seq_encodes kb (f : list gv -> res bytes) :
+  (forall l, f l = match l with [] => Acc [] | y :: r => let* a := enc kb y in let* b := f r in Acc (a ++ b) end) ->
+  forall l bs, Forall (encodes kb) l -> Forall (fun y => gv_plain y = true) l -> f l = Acc bs ->
   exists ws, bs = flat_map ser ws /\ length ws = length l /\ Forall good ws.
 Proof.
   intros Hf. induction l as [|y l IH]; intros bs He Hp H; rewrite Hf in H.
   - inversion H; subst. exists []. repeat split; constructor.
   - inversion He as [|? ? Hy He']; subst. inversion Hp as [|? ? Py Hp']; subst.
-    destruct (enc y) as [a| | |] eqn:Ey; cbn [bind] in H; try discriminate.
+    destruct (enc kb y) as [a| | |] eqn:Ey; cbn [bind] in H; try discriminate.
     destruct (f l) as [b| | |] eqn:El; cbn [bind] in H; try discriminate.
     inversion H; subst. destruct (Hy a Py Ey) as (w & -> & Gw).
     destruct (IH b He' Hp' eq_refl) as (ws & -> & Hl & Gs).
@@ -76,12 +76,12 @@ Proof.
 Qed.
 
 (* pairs of encoded items *)
-Lemma pairs_encode (f : list gv -> res (list (bytes * bytes))) :
+Lemma pairs_encode kb (f : list gv -> res (list (bytes * bytes))) :
   (forall l, f l = match l with
-                   | k :: v :: r => let* a := enc k in let* b := enc v in let* c := f r in Acc ((a, b) :: c)
+                   | k :: v :: r => let* a := enc kb k in let* b := enc kb v in let* c := f r in Acc ((a, b) :: c)
                    | _ => Acc []
                    end) ->
-  forall l kvs, Forall encodes l -> Forall (fun y => gv_plain y = true) l -> f l = Acc kvs ->
+  forall l kvs, Forall (encodes kb) l -> Forall (fun y => gv_plain y = true) l -> f l = Acc kvs ->
   Forall (fun kv => exists wk wv, fst kv = ser wk /\ snd kv = ser wv /\ good wk /\ good wv) kvs /\
   (length kvs <= length l / 2)%nat.
 Proof.
@@ -90,8 +90,8 @@ Proof.
   - inversion H; subst. split; [constructor|cbn; lia].
   - inversion He as [|? ? Hk He']; subst. inversion He' as [|? ? Hv He'']; subst.
     inversion Hp as [|? ? Pk Hp']; subst. inversion Hp' as [|? ? Pv Hp'']; subst.
-    destruct (enc k) as [a| | |] eqn:Ek; cbn [bind] in H; try discriminate.
-    destruct (enc v) as [b| | |] eqn:Ev; cbn [bind] in H; try discriminate.
+    destruct (enc kb k) as [a| | |] eqn:Ek; cbn [bind] in H; try discriminate.
+    destruct (enc kb v) as [b| | |] eqn:Ev; cbn [bind] in H; try discriminate.
     destruct (f r) as [c| | |] eqn:Er; cbn [bind] in H; try discriminate.
     inversion H; subst. destruct (Hk a Pk Ek) as (wk & -> & Gk). destruct (Hv b Pv Ev) as (wv & -> & Gv).
     destruct (IH r c He'' Hp'' Er) as [Fc Lc]. split.
@@ -129,9 +129,9 @@ Proof.
   induction 1 as [|w l [Hw Hc] Hl [IH1 IH2]]; cbn; auto. rewrite Hw, Hc, IH1, IH2. auto.
 Qed.
 
-Theorem enc_canonical : forall g, encodes g.
+Theorem enc_canonical : forall kb g, encodes kb g.
 Proof.
-  induction g using gv_ind'; unfold encodes; intros out Hp He; cbn [gv_plain] in Hp; try discriminate.
+  intros kb. induction g using gv_ind'; unfold encodes; intros out Hp He; cbn [gv_plain] in Hp; try discriminate.
   - (* GInt *) cbn [enc] in He. inversion He; subst. unfold enc_int.
     apply andb_true_iff in Hp as [H1 H2]. apply Z.leb_le in H1. apply Z.ltb_lt in H2.
     destruct (0 <=? n) eqn:E.
@@ -148,7 +148,7 @@ Proof.
   - (* GArr *) apply andb_true_iff in Hp as [Hlen Hall]. apply plain_all_forall in Hall.
     cbn [enc] in He.
     match type of He with (let* bs := ?F l in _) = _ => destruct (F l) as [bs| | |] eqn:EL; cbn [bind] in He; try discriminate;
-      destruct (seq_encodes F ltac:(intros [|y r]; reflexivity) l bs H Hall EL) as (ws & -> & Hl & Gs) end.
+      destruct (seq_encodes kb F ltac:(intros [|y r]; reflexivity) l bs H Hall EL) as (ws & -> & Hl & Gs) end.
     inversion He; subst. exists (WArr (minw (len ws)) ws).
     assert (Lw : len ws = len l) by (unfold len; rewrite Hl; reflexivity).
     destruct (forall_good_forallb ws Gs) as [F1 F2].
@@ -157,7 +157,7 @@ Proof.
   - (* GMap *) apply andb_true_iff in Hp as [Hlen Hall]. apply plain_all_forall in Hall.
     cbn [enc] in He.
     match type of He with (let* kvs := ?F l in _) = _ => destruct (F l) as [kvs| | |] eqn:EL; cbn [bind] in He; try discriminate;
-      destruct (pairs_encode F ltac:(intros [|k [|v r]]; reflexivity) l kvs H Hall EL) as [Fk Lk] end.
+      destruct (pairs_encode kb F ltac:(intros [|k [|v r]]; reflexivity) l kvs H Hall EL) as [Fk Lk] end.
     apply enc_map_canonical in He as (s & -> & Ss & Ps).
     assert (Fs : Forall (fun kv => exists wk wv, fst kv = ser wk /\ snd kv = ser wv /\ good wk /\ good wv) s).
     { rewrite Forall_forall in *. intros x Hx. apply Fk. eapply Permutation_in; eauto. }
@@ -176,7 +176,7 @@ Proof.
       rewrite Ll. apply Nat.even_spec. exists (length s). lia.
     + rewrite Lt, width_eqb_refl, F2, Kl. reflexivity.
   - (* GTag *) apply andb_true_iff in Hp as [Ht Hc]. cbn [enc] in He.
-    destruct (enc g) as [bc| | |] eqn:Ec; cbn [bind] in He; try discriminate. inversion He; subst.
+    destruct (enc kb g) as [bc| | |] eqn:Ec; cbn [bind] in He; try discriminate. inversion He; subst.
     destruct (IHg bc Hc Ec) as (w & -> & Gw & Cw).
     exists (WTag (minw t) t w). split; [reflexivity|].
     split; cbn; [rewrite Gw, andb_true_r; apply minw_fits; lia|rewrite width_eqb_refl, Cw; reflexivity].
@@ -185,20 +185,20 @@ Proof.
 Qed.
 
 (* C08: whatever the encoder returns for such a value parses back to exactly one canonical tree *)
-Corollary enc_output_parses g b :
-  gv_plain g = true -> enc g = Acc b -> exists w, parse_full b = Some w /\ canonical w = true.
+Corollary enc_output_parses kb g b :
+  gv_plain g = true -> enc kb g = Acc b -> exists w, parse_full b = Some w /\ canonical w = true.
 Proof.
-  intros Hp He. destruct (enc_canonical g b Hp He) as (w & -> & Hw & Hc). exists w. split; auto. apply parse_full_ser; auto.
+  intros Hp He. destruct (enc_canonical kb g b Hp He) as (w & -> & Hw & Hc). exists w. split; auto. apply parse_full_ser; auto.
 Qed.
 
 (* the same for a whole header bucket *)
-Corollary enc_hmap_canonical l b :
-  gv_plain (GMap l) = true -> enc_hmap l = Acc b -> exists w, b = ser w /\ wf w = true /\ canonical w = true.
+Corollary enc_hmap_canonical kb l b :
+  gv_plain (GMap l) = true -> enc_hmap kb l = Acc b -> exists w, b = ser w /\ wf w = true /\ canonical w = true.
 Proof.
-  intros Hp He. apply (enc_canonical (GMap l) b Hp). exact He.
+  intros Hp He. apply (enc_canonical kb (GMap l) b Hp). exact He.
 Qed.
 
 Example canonical_example :
-  enc (GMap [GInt KInt 256; GStr [97]; GInt KInt64 (-1); GArr [GBytes []; GBool true]; GStr []; GInt KUint8 24]) =
+  enc false (GMap [GInt KInt 256; GStr [97]; GInt KInt64 (-1); GArr [GBytes []; GBool true]; GStr []; GInt KUint8 24]) =
   Acc [163; 25; 1; 0; 97; 97; 32; 130; 64; 245; 96; 24; 24]. (* bytewise: 19 01 00 < 20 < 60 *)
 Proof. vm_compute. reflexivity. Qed.
